@@ -155,7 +155,7 @@ mod verif_block_leaves_as {
         }
     }}
     // FINDING (text form): "3-1" parses to the block AS3-AS1: AsBlock::from_str does not check min <= max.
-    //@harness bl_as_text_lo_le_hi K fn=AsBlock::from_str
+    //@harness bl_as_text_lo_le_hi Kb fn=AsBlock::from_str bound="strings d-d with one decimal digit on each side"
     verif_harness!{ #[kani::unwind(6)] bl_as_text_lo_le_hi; |a: u8, b: u8| {
         assume(a >= b'0' && a <= b'9' && b >= b'0' && b <= b'9');
         let buf = [a, b'-', b];
@@ -329,7 +329,7 @@ mod verif_block_leaves_ip {
     // in codegen_get_discriminant.)
     // FINDING (C03, lower bound not above upper bound): SEQUENCE { 1/8, 0/8 } is accepted as the range
     // 1.0.0.0 - 0.255.255.255: AddressRange::parse_content[_with_family] do not check min <= max.
-    //@harness bl_ip_der_lo_le_hi K fn=AddressRange::parse_content
+    //@harness bl_ip_der_lo_le_hi Kb fn=AddressRange::parse_content bound="both BIT STRINGs one octet without unused bits (/8 prefixes), octet values unrestricted"
     verif_harness!{ #[kani::unwind(18)] bl_ip_der_lo_le_hi; |a: u8, b: u8| {
         let buf = [0x30u8, 8, 3, 2, 0, a, 3, 2, 0, b];
         let r = bcder::Mode::Der.decode(&buf[..], |cons| cons.take_value_if(Tag::SEQUENCE, AddressRange::parse_content));
@@ -340,7 +340,7 @@ mod verif_block_leaves_ip {
         }
     }}
     // FINDING: same defect in the family-checking variant.
-    //@harness bl_ip_der_family_lo_le_hi K fn=AddressRange::parse_content_with_family
+    //@harness bl_ip_der_family_lo_le_hi Kb fn=AddressRange::parse_content_with_family bound="both BIT STRINGs one octet without unused bits (/8 prefixes), octet values and family unrestricted"
     verif_harness!{ #[kani::unwind(18)] bl_ip_der_family_lo_le_hi; |a: u8, b: u8, v4: bool| {
         let buf = [0x30u8, 8, 3, 2, 0, a, 3, 2, 0, b];
         let fam = if v4 { AddressFamily::Ipv4 } else { AddressFamily::Ipv6 };
@@ -349,6 +349,20 @@ mod verif_block_leaves_ip {
             assert!(val(blk.min()) == (a as u128) << 120, "decoded lower bound");
             assert!(val(blk.max()) == ((b as u128) << 120) | hostmask(8), "decoded upper bound");
             assert!(blk.min() <= blk.max(), "a decoded address range has min <= max");
+        }
+    }}
+
+    // FINDING (text form): "9.0.0.0-1.0.0.0" parses to an inverted range: AddressRange::from_str_sep
+    // (and from_v4_str_sep / from_v6_str_sep) do not check min <= max.
+    //@harness bl_ip_text_lo_le_hi Kb fn=AddressRange::from_str_sep,AddressRange::from_str bound="strings d.0.0.0-d.0.0.0 with one decimal digit each" timeout=900
+    verif_harness!{ #[kani::unwind(20)] bl_ip_text_lo_le_hi; |a: u8, b: u8| {
+        assume(a >= b'0' && a <= b'9' && b >= b'0' && b <= b'9');
+        let buf = [a, b'.', b'0', b'.', b'0', b'.', b'0', b'-', b, b'.', b'0', b'.', b'0', b'.', b'0'];
+        let s = core::str::from_utf8(&buf[..]).unwrap();
+        if let Ok(r) = AddressRange::from_str(s) {
+            assert!(val(r.min()) == ((a - b'0') as u128) << 120, "parsed lower bound");
+            assert!(val(r.max()) == (((b - b'0') as u128) << 120) | hostmask(32), "parsed upper bound (padded with ones)");
+            assert!(r.min() <= r.max(), "a parsed address range has min <= max");
         }
     }}
 
